@@ -40,10 +40,6 @@ func (m *Monitors) emit(w *World, prop, what string, in any, obs any) {
 		return
 	}
 	v := Viol{Property: prop, What: what, Input: in, Observed: obs}
-	if w != nil && w.hoplike {
-		// worlds with hop-like native denominations reproduce the known findings F3 (DESIGN §6)
-		v.Key = prop + ":hoplike-native-base"
-	}
 	v.Requests = append([]M{}, m.hist...)
 	m.report(v)
 }
@@ -252,6 +248,11 @@ func (m *Monitors) failedTransfer(w *World, in M, cls string, snap *Snap) {
 	}
 	denom := str(in, "denom")
 	if !strings.HasPrefix(denom, "ibc/") || !boolean(in, "tx") || str(in, "signer") != str(in, "sender") {
+		return
+	}
+	if boolean(in, "alias") {
+		// sending over the v2 alias is a different protocol: v2 OnSendPacket refuses every base
+		// denomination containing '/' by design; the v1 channel itself remains usable
 		return
 	}
 	c := num(in, "chain")
